@@ -134,6 +134,17 @@ CHECKS = {
         note=TRUSTED + " Soundness of the generator (only programs inside the class) is argued in lib/gen.py; goals over variables Polar classifies defective are skipped; time limits are inconclusive.",
         design="DESIGN.md section 4 C18",
     ),
+    "C19": dict(
+        technique="property-based testing, metamorphic (equivalent renderings of one AST must give equal closed forms, checked against the exact interpreter) plus negative testing with grammar-violating mutation operators",
+        text="Generated-input search: (a) one AST is rendered twice, differing in >= 2 of the style knobs the property lists (whitespace, comments, blank lines, "
+             "redundant parentheses, decimal vs fraction literals, explicit vs omitted last probability, simultaneous assignment vs explicit temporaries, elif vs nested "
+             "else-if) and with precedence-sensitive constants (2-3-4, -2**2, 2**3**2, ...); both closed forms must agree at every n and rendering A must agree with the "
+             "exact interpreter of the AST (Python precedence, remainder probability, parallel assignment, exact decimals); (b) texts damaged by one of 11 structural "
+             "mutation operators must be rejected by the parser; choices with negative probabilities or a sum above 1 must be rejected.",
+        note=TRUSTED + " The mutation operators were chosen by inspection of syntax.lark so that every result is outside the grammar. A variant refused after parsing "
+             "(the nested-if refusal listed under C18) is counted as a refusal, a parse error on a rewritten valid text is a violation.",
+        design="DESIGN.md section 4 C19",
+    ),
 }
 
 PENDING = {}
